@@ -94,7 +94,14 @@ pub fn panic_text(p: Box<dyn std::any::Any + Send>) -> String {
 }
 
 pub fn quiet_panics() {
-    std::panic::set_hook(Box::new(|_| {}));
+    // panics of the code under test are expected observations (caught per case); a panic on a harness thread is a
+    // machinery failure and must stay visible
+    std::panic::set_hook(Box::new(|info| {
+        let harness = info.location().map_or(false, |l| l.file().starts_with("src/") && !l.file().contains("/repo/"));
+        if harness || std::env::var("VERIF_LOUD").is_ok() {
+            eprintln!("MACHINERY panic: {}", info);
+        }
+    }));
 }
 
 pub fn parse(q: &str) -> Result<Result<JpQuery, String>, String> {
